@@ -59,6 +59,9 @@ type c07Site struct {
 	inParam  *syntax.InParam
 	splitLit int // for split literal arrays: length
 	sibSplit *c07Site
+	group    []*c07Site      // all judged bindings of the same call, in source order
+	mode     syntax.CallMode // of the call
+	selfRef  string          // some `self.x` that resolves in the enclosing pipeline ("" if none)
 }
 
 var c07BindRe = regexp.MustCompile(`^(\s*)([A-Za-z_][A-Za-z0-9_]*)(\s*=\s*)(split\s+)?(.*?),\s*$`)
@@ -83,7 +86,7 @@ func c07Sites(p *c07Prog, ast *syntax.Ast, lines []string) []*c07Site {
 	mainFile := func(n *syntax.AstNode) bool {
 		return n.Loc.File != nil && filepath.Base(n.Loc.File.FileName) == filepath.Base(p.fname)
 	}
-	add := func(bs *syntax.BindStms, first int, where string, callable syntax.Callable) {
+	add := func(bs *syntax.BindStms, first int, where string, callable syntax.Callable, mode syntax.CallMode, selfRef string) {
 		if bs == nil || len(bs.List) == 0 {
 			return
 		}
@@ -120,7 +123,7 @@ func c07Sites(p *c07Prog, ast *syntax.Ast, lines []string) []*c07Site {
 			if t == nil {
 				continue
 			}
-			s := &c07Site{b: b, line: ln, first: first, last: last + 1, t: t, where: where, split: m[4] != ""}
+			s := &c07Site{b: b, line: ln, first: first, last: last + 1, t: t, where: where, split: m[4] != "", mode: mode, selfRef: selfRef}
 			if st, ok := callable.(*syntax.Stage); ok && st != nil && st.InParams != nil {
 				s.stage = st
 				s.inParam = st.InParams.Table[b.Id]
@@ -133,6 +136,7 @@ func c07Sites(p *c07Prog, ast *syntax.Ast, lines []string) []*c07Site {
 			group = append(group, s)
 		}
 		for _, s := range group {
+			s.group = group
 			for _, o := range group {
 				if o != s && o.split && o.splitLit > 0 {
 					s.sibSplit = o
@@ -145,15 +149,23 @@ func c07Sites(p *c07Prog, ast *syntax.Ast, lines []string) []*c07Site {
 		if !mainFile(&pl.Node) {
 			continue
 		}
+		selfRef := ""
+		if pl.InParams != nil && len(pl.InParams.List) > 0 {
+			selfRef = "self." + pl.InParams.List[0].Id
+		}
 		for _, call := range pl.Calls {
-			add(call.Bindings, call.Node.Loc.Line, "call", ast.Callables.Table[call.DecId])
+			mode := syntax.ModeSingleCall
+			if call.Mapping != nil {
+				mode = call.Mapping.CallMode()
+			}
+			add(call.Bindings, call.Node.Loc.Line, "call", ast.Callables.Table[call.DecId], mode, selfRef)
 		}
 		if pl.Ret != nil {
-			add(pl.Ret.Bindings, pl.Ret.Node.Loc.Line, "return", nil)
+			add(pl.Ret.Bindings, pl.Ret.Node.Loc.Line, "return", nil, syntax.ModeSingleCall, selfRef)
 		}
 	}
 	if ast.Call != nil && mainFile(&ast.Call.Node) {
-		add(ast.Call.Bindings, ast.Call.Node.Loc.Line, "top", nil)
+		add(ast.Call.Bindings, ast.Call.Node.Loc.Line, "top", nil, syntax.ModeSingleCall, "")
 	}
 	return sites
 }
@@ -276,6 +288,102 @@ func c07Mutants(p *c07Prog, s *c07Site, lines []string) []c07Mutant {
 			}
 		}
 	}
+	// a split over a reference (length unknown at compile time) followed by two
+	// literal splits that disagree with each other
+	if s.split && s.where == "call" && len(s.group) >= 3 && s.group[0] == s && (s.mode == syntax.ModeArrayCall || s.mode == syntax.ModeMapCall) {
+		if sp, ok := s.b.Exp.(*syntax.SplitExp); ok {
+			if _, isRef := sp.Value.(*syntax.RefExp); isRef {
+				var plain []*c07Site
+				for _, o := range s.group[1:] {
+					if !o.split && len(plain) < 2 {
+						plain = append(plain, o)
+					}
+				}
+				if len(plain) == 2 {
+					for _, swap := range []bool{false, true} {
+						ml := append([]string{}, lines...)
+						var marker string
+						for i, o := range plain {
+							om := c07BindRe.FindStringSubmatch(lines[o.line-1])
+							e := strings.TrimSpace(om[5])
+							n := 2 + i
+							if swap {
+								n = 3 - i
+							}
+							var lit string
+							if s.mode == syntax.ModeArrayCall {
+								lit = "[" + strings.TrimSuffix(strings.Repeat(e+", ", n), ", ") + "]"
+							} else {
+								var kv []string
+								for k := 0; k < n; k++ {
+									kv = append(kv, fmt.Sprintf("%q: %s", "zz_k"+fmt.Sprint(k), e))
+								}
+								lit = "{" + strings.Join(kv, ", ") + "}"
+							}
+							ml[o.line-1] = om[1] + om[2] + om[3] + "split " + lit + ","
+							marker = strings.TrimSpace(ml[o.line-1])
+						}
+						out = append(out, c07Mutant{kind: "split-mismatch-after-unknown-source", src: strings.Join(ml, "\n"), lines: extent, marker: marker})
+					}
+				}
+			}
+		}
+	}
+	// a reference nested inside a literal bound to an untyped map
+	if !s.split && s.selfRef != "" && s.where != "top" {
+		wrap := func(e string) string { return e }
+		ut := t
+		for ut.kind == 'a' {
+			prev := wrap
+			wrap = func(e string) string { return prev("[" + e + "]") }
+			ut = ut.elem
+		}
+		if ut.kind == 'b' && ut.name == "map" {
+			raw("untyped-map-ref-in-array", wrap(`{"k": [1, `+s.selfRef+`]}`), here)
+			raw("untyped-map-ref-in-map", wrap(`{"k": {"j": `+s.selfRef+`}}`), here)
+			raw("untyped-map-ref-direct", wrap(`{"k": `+s.selfRef+`}`), here)
+		}
+		if ut.kind == 's' {
+			for i, f := range ut.fields {
+				if f.t.kind == 'b' && f.t.name == "map" {
+					w := c07Witness(ut)
+					w.elems[i] = &c07Exp{kind: 'm', keys: []string{"k"}, elems: []*c07Exp{c07Arr(c07Int(1), &c07Exp{kind: 'x', str: s.selfRef})}}
+					raw("untyped-map-ref-in-array", wrap(w.mro()), here)
+					break
+				}
+			}
+		}
+	}
+	// the declared type of the stage parameter: same base type, one array level more
+	// (inside the map for typed maps) – only a direct reference is certainly not convertible
+	if _, isRef := s.b.Exp.(*syntax.RefExp); isRef && s.inParam != nil && s.where == "call" && !s.split {
+		dl := s.inParam.Node.Loc.Line
+		if dl >= 1 && dl <= len(lines) && s.inParam.Node.Loc.File == s.b.Node.Loc.File {
+			re := regexp.MustCompile(`^(\s*in\s+)(\S+)(\s+` + regexp.QuoteMeta(s.inParam.Id) + `\b.*)$`)
+			if dm := re.FindStringSubmatch(lines[dl-1]); dm != nil {
+				id := s.inParam.Tname
+				kind := "declared-param-array-depth"
+				if id.MapDim > 0 {
+					id.MapDim++
+					kind = "declared-param-map-inner-depth"
+				} else {
+					id.ArrayDim++
+				}
+				nl := dm[1] + id.String() + dm[3]
+				ml := append(append([]string{}, lines[:dl-1]...), nl)
+				ml = append(ml, lines[dl:]...)
+				out = append(out, c07Mutant{kind: kind, src: strings.Join(ml, "\n"), lines: extent, marker: strings.TrimSpace(nl)})
+				if s.inParam.Tname.MapDim > 1 {
+					id2 := s.inParam.Tname
+					id2.MapDim--
+					nl2 := dm[1] + id2.String() + dm[3]
+					ml2 := append(append([]string{}, lines[:dl-1]...), nl2)
+					ml2 = append(ml2, lines[dl:]...)
+					out = append(out, c07Mutant{kind: kind, src: strings.Join(ml2, "\n"), lines: extent, marker: strings.TrimSpace(nl2)})
+				}
+			}
+		}
+	}
 	// the declared type of the stage parameter
 	if s.inParam != nil && s.where == "call" && !s.split && c07Substantial(s.b.Exp) {
 		dl := s.inParam.Node.Loc.Line
@@ -340,7 +448,7 @@ func c07MutationPrograms(c *Ctx) []*c07Prog {
 			}
 		}
 	}
-	n := 25
+	n := 60
 	if c.Thorough {
 		n = 400
 	}
